@@ -1,5 +1,6 @@
 import RR.Gen.WaitsStatus
 import RR.Proof.Kpn
+import RR.Proof.KpnRun
 import RR.Proof.Sched
 import RR.Proof.Sync
 import RR.Proof.Wait
@@ -74,6 +75,36 @@ theorem c05_block_invariant (S : Blk.SyncSpec) (get : Nat → List Nat × List (
       (Blk.syncLoopG S get st c chunks.sum).map fun (s, rows, ts) => (s, c + chunks.sum, rows, ts) :=
   Blk.driveG_eq_oneShot S get st c chunks
 
+/-- Layers 1+4 composed operationally: a graph state = the history committed on every stream and how much of
+each input every block has consumed; a step = ANY one block consumes more of what exists and extends its outputs,
+which stay a prefix of its history function of what it has consumed (what the C08 theorems say any sequence of
+`work()` calls of that block does). **For every sequence of such steps** — any interleaving, any amounts, any
+number of steps, so also any stream size, wait timeout or add order — the invariant holds … -/
+theorem c05_every_schedule_invariant (nodes : List Kpn.Node)
+    (hw : ∀ m, (hm : m < nodes.length) → ∀ i ∈ nodes[m].ins, i < Kpn.base nodes m)
+    (s : Kpn.GState) (r : Kpn.Run nodes ⟨List.replicate (Kpn.base nodes nodes.length) [], []⟩ s) :
+    Kpn.Inv nodes s :=
+  Kpn.run_inv nodes _ s (Kpn.inv_init nodes hw) r
+
+/-- … and every run that ends with everything consumed and emitted has computed the sequential reference
+execution, whatever the schedule was. -/
+theorem c05_every_schedule_result (nodes : List Kpn.Node)
+    (hw : ∀ m, (hm : m < nodes.length) → ∀ i ∈ nodes[m].ins, i < Kpn.base nodes m)
+    (s : Kpn.GState) (r : Kpn.Run nodes ⟨List.replicate (Kpn.base nodes nodes.length) [], []⟩ s)
+    (hall : Kpn.AllConsumed nodes s) : s.h = Kpn.eval nodes [] :=
+  Kpn.run_terminal nodes hw s r hall
+
+/-- Steps exist: the executable `stepFn` (block `idx` consumes up to `cs'` and emits all its function gives) is a
+step whenever the amounts are available and the block's function is prefix-monotone at that point. -/
+theorem c05_step_exists (nodes : List Kpn.Node) (idx : Nat) (cs' : List Nat) (s : Kpn.GState) (hidx : idx < nodes.length)
+    (hinv : Kpn.Inv nodes s)
+    (hmono : ∀ k, (s.cs.getD idx []).getD k 0 ≤ cs'.getD k 0)
+    (hav : ∀ k, k < nodes[idx].ins.length → cs'.getD k 0 ≤ (s.h.getD (nodes[idx].ins.getD k 0) []).length)
+    (hext : ∀ j, j < nodes[idx].nout → ∃ ext,
+      (nodes[idx].F (Kpn.consumedOf nodes[idx] s.h cs')).getD j [] = s.h.getD (Kpn.base nodes idx + j) [] ++ ext) :
+    Kpn.Step nodes idx s (Kpn.stepFn nodes idx cs' s) :=
+  Kpn.stepFn_step nodes idx cs' s hidx hinv hmono hav hext
+
 /-! Non-vacuity: a tee/merge diamond (source; tee; +1 on one branch; add) has one quiescent state. -/
 def diamond : List Kpn.Node :=
   [ ⟨[], 1, fun _ => [[1, 2, 3]]⟩,
@@ -82,5 +113,13 @@ def diamond : List Kpn.Node :=
     ⟨[3, 2], 1, fun xs => [List.zipWith (· + ·) (xs.getD 0 []) (xs.getD 1 [])]⟩ ]
 
 example : Kpn.eval diamond [] = [[1, 2, 3], [1, 2, 3], [1, 2, 3], [2, 3, 4], [3, 5, 7]] := by decide
+
+/-- an interleaved schedule on the diamond (source; tee consumes 2; the +1 branch 1; the adder 1+1; … ) ends in the
+reference result -/
+example :
+    let s0 : Kpn.GState := ⟨List.replicate 5 [], []⟩
+    let sched : List (Nat × List Nat) :=
+      [(0, []), (1, [2]), (2, [1]), (3, [1, 1]), (1, [3]), (3, [1, 2]), (2, [3]), (3, [3, 3])]
+    (sched.foldl (fun s p => Kpn.stepFn diamond p.1 p.2 s) s0).h = Kpn.eval diamond [] := by decide
 
 end RR.Props.C05
